@@ -13,7 +13,7 @@ sed -i "s#/repo/stun-types#$WT/stun-types#; s#/repo/stun-proto#$WT/stun-proto#" 
 mkdir -p /tmp/vrun/target_$(basename $WT); ln -sfn /tmp/vrun/target_$(basename $WT) $V/harness/target
 cd $V
 for pid in "$@"; do
-  out=$(./check $pid --tier quick 2>$V/err_$pid.log); rc=$?
+  out=$(VERIF_REPO=$WT ./check $pid --tier quick 2>$V/err_$pid.log); rc=$?
   nv=$(echo "$out" | grep -c '^VIOLATION')
   echo "$TAG $pid rc=$rc violations=$nv $(python3 -c "
 import json
